@@ -89,9 +89,10 @@ def call(w, fn, *a, **kw):
 
 def owner_tags(w, prop):
     """Attribution (DESIGN §4.4): what happened during the call wins."""
-    if w.cur_info.get('fired'):
-        return ['C09']
-    return [prop]
+    tags = ['C09'] if w.cur_info.get('fired') else [prop]
+    if w.cur_info.get('final_in_op') and 'C08' not in tags:
+        tags.append('C08')     # "no matter when other Functions are dropped"
+    return tags
 
 
 def ref_ok(w, m, val):
